@@ -5,8 +5,9 @@ from tools.harness import common, route as R
 ID = 'C11'
 TARGETS = ['MindsVerif.Props.C11']
 THEOREMS = ['MindsVerif.Props.C11.' + n for n in (
-    'C11_decision', 'C11_decision_cte', 'C11_decision_before_0e75382', 'C11_decision_sound', 'C11_names',
-    'C11_partial_resolution', 'C11_regression_1', 'C11_witness_1', 'C11_resolution_full_false', 'C11_regression_2')]
+    'C11_main', 'C11_partial_decision', 'C11_witness_2', 'C11_decision_cte', 'C11_decision_before_0e75382',
+    'C11_decision_sound', 'C11_names', 'C11_resolution', 'C11_resolution_names', 'C11_resolution_exact',
+    'C11_exactness_needs_hypothesis', 'C11_regression_1', 'C11_regression_2', 'C11_regression_3')]
 ASSUME = [
     'get_query_info, check_single_integration, prepare_integration_select and the walker are hand-modelled '
     '(Model/Route.lean); tie = the plan stream of this run (decision + identifiers of the pushed query vs the real planner)',
@@ -61,6 +62,9 @@ def tags_of(ast, pushed):
         tags.append('alias=integration')
     if any(i.alias is None and len(i.parts) > 1 and str(i.parts[-1]).lower() == DB for i, _ in R.table_refs(ast)):
         tags.append('table=integration')
+    ctes = {str(c).lower() for c in all_cte_names(ast)}
+    if any(len(i.parts) > 1 and str(i.parts[-1]).lower() in ctes for i, _ in R.table_refs(ast)):
+        tags.append('cte-name=qualified-table')
     if pushed is not None:
         for i, path in R.all_identifiers(pushed):
             if ('Case', 'arg') in path and len(i.parts) > 1 and str(i.parts[0]).lower() == DB:
@@ -183,13 +187,44 @@ def gen_sel(rng, depth=0):
         else:
             cols.append([rng.choice(['int1', 'INT1', 'int1', 'int2', 'zz']), rng.choice(VOC_Q), c])
     subs = [gen_sel(rng, depth + 1)] if depth < 1 and rng.random() < 0.5 else []
-    return [tabs, cols, subs]
+    ctes = []
+    if depth == 0 and rng.random() < 0.4:
+        # one CTE `c0` = SELECT * FROM <one table>; its body is a scope of its own with its own references
+        t = rng.choice(sorted(TABLES))
+        bparts = [t] if rng.random() < 0.3 else [rng.choice(['int1', 'INT1']), t]
+        balias = rng.choice([None, None, 'a', 'int1', 't'])
+        bq = balias or t
+        bcols = [[rng.choice(VOC_C)], [rng.choice([bq, bq, 'int1', 'zz']), rng.choice(VOC_C)]]
+        if rng.random() < 0.5:
+            bcols.append([rng.choice(['int1', 'INT1', 'zz']), rng.choice([t, bq]), rng.choice(VOC_C)])
+        ctes = [[[(bparts, balias)], bcols, [], []]]
+        if rng.random() < 0.8:
+            calias = rng.choice([None, None, 'b', 'int1'])
+            tabs[rng.randrange(len(tabs))] = (['c0'], calias)
+            cols.append(['c0', rng.choice(VOC_C)])
+            # modelling boundary: a CTE is read as a table of the integration, so `int1.<cte>.col` would resolve in
+            # the model; sqlite3 does not accept a database-qualified reference to a CTE — such references are not generated
+            e = (calias or 'c0').lower()
+
+            def drop(sel):
+                sel[1] = [c for c in sel[1] if not (len(c) == 3 and c[1].lower() == e)] or [['id']]
+                for x in sel[2]:
+                    drop(x)
+            keep = [tabs, cols, subs, ctes]
+            drop(keep)
+            cols = keep[1]
+    return [tabs, cols, subs, ctes]
+
+
+def cte_table(sel):
+    """underlying table of the CTE c0 (its columns are that table's columns)"""
+    return sel[3][0][0][0][0][-1] if sel[3] else None
 
 
 def sel_json(sel):
-    tabs, cols, subs = sel
+    tabs, cols, subs, ctes = sel
     return [[[[R.enc(p) for p in parts], R.enc_opt(a)] for parts, a in tabs], [[R.enc(p) for p in c] for c in cols],
-            [sel_json(s) for s in subs]]
+            [sel_json(s) for s in subs], [sel_json(s) for s in ctes]]
 
 
 def cut(parts, names=(), is_tab=True):
@@ -199,9 +234,10 @@ def cut(parts, names=(), is_tab=True):
 
 
 def sel_aliases(sel):
-    tabs, cols, subs = sel
-    out = {a.lower() for _, a in tabs if a}
-    for s in subs:
+    """the `names` of the live cut: alias or, without one, own name of every table reference (CTE bodies included)"""
+    tabs, cols, subs, ctes = sel
+    out = {(a or p[-1]).lower() for p, a in tabs}
+    for s in subs + ctes:
         out |= sel_aliases(s)
     return out
 
@@ -210,15 +246,19 @@ def from_clause(tabs, strip):
     return ', '.join('.'.join(cut(p) if strip else p) + (' AS %s' % a if a else '') for p, a in tabs)
 
 
-def sqlite_resolutions(conn, sel, strip, outer=(), names=()):
-    """what sqlite says about every column reference, in the model's order"""
-    tabs, cols, subs = sel
+def sqlite_resolutions(conn, sel, strip, outer=(), names=(), prefix=''):
+    """what sqlite says about every column reference, in the model's order (CTE bodies first)"""
+    tabs, cols, subs, ctes = sel
     out = []
+    for body in ctes:
+        out += sqlite_resolutions(conn, body, strip, (), names)
+        prefix = 'WITH c0 AS (SELECT * FROM %s) ' % from_clause(body[0], strip)
     for c in cols:
         r = '.'.join(cut(c, names, False) if strip else c)
         q = 'SELECT %s FROM %s LIMIT 1' % (r, from_clause(tabs, strip))
         for otabs in outer:
             q = 'SELECT (%s) FROM %s LIMIT 1' % (q, from_clause(otabs, strip))
+        q = prefix + q
         try:
             row = conn.execute(q).fetchone()
             out.append(['ok'] + str(row[0]).split('.'))
@@ -226,7 +266,7 @@ def sqlite_resolutions(conn, sel, strip, outer=(), names=()):
             m = str(e)
             out.append(['ambiguous'] if 'ambiguous' in m else (['notFound'] if 'no such column' in m else ['error', m]))
     for s in subs:
-        out += sqlite_resolutions(conn, s, strip, (tabs,) + tuple(outer), names)
+        out += sqlite_resolutions(conn, s, strip, (tabs,) + tuple(outer), names, prefix)
     return out
 
 
@@ -304,6 +344,11 @@ def run(chk):
                 stmts.append((c, 'SELECT a.x FROM %s.demo.t AS a JOIN %s.DEMO.s AS b ON a.id = b.id' % (q, q), ['schema.table=project.model']))
                 stmts.append((c, 'SELECT a.x FROM %s.t AS a JOIN %s.s AS b ON b.x' % (q, q), ['on-single-column']))
                 stmts.append((c, 'SELECT a.x FROM %s.t AS a LEFT JOIN %s.s AS b ON b.x WHERE a.y > 0' % (q, q), ['on-single-column']))
+    # a CTE called like a table of the integration that the query also uses, qualified
+    for c in (R.Cat([('n', 'int1'), ('n', 'int2')], None, None, 'mindsdb'), R.Cat([('n', 'int1')], None, None, 'int1')):
+        for q in ('int1', 'INT1'):
+            stmts.append((c, 'WITH t AS (SELECT * FROM %s.s) SELECT t.id, u.x FROM t JOIN %s.t AS u ON t.id = u.id' % (q, q), ['cte-name=qualified-table']))
+            stmts.append((c, 'WITH s AS (SELECT * FROM %s.t) SELECT * FROM %s.s WHERE id IN (SELECT id FROM s)' % (q, q), ['cte-name=qualified-table']))
     # an unaliased table whose own name is the integration name
     for c in (R.Cat([('n', 'int1'), ('n', 'int2')], None, None, 'mindsdb'), R.Cat([('n', 'INT1')], None, None, 'int1')):
         for q in ('int1', 'INT1'):
@@ -350,7 +395,10 @@ def run(chk):
         metas.append(('plan', c, (sql, ast)))
     sels = [gen_sel(rng) for _ in range(n_sem)]
     for s in sels:
-        lines.append(json.dumps(dict(op='sem', db=R.enc(DB), sch=[[R.enc(t), [R.enc(c) for c in cols]] for t, cols in sorted(TABLES.items())],
+        schema = dict(TABLES)
+        if cte_table(s):
+            schema['c0'] = TABLES[cte_table(s)]
+        lines.append(json.dumps(dict(op='sem', db=R.enc(DB), sch=[[R.enc(t), [R.enc(c) for c in cols]] for t, cols in sorted(schema.items())],
                                      sel=sel_json(s))))
         metas.append(('sem', None, s))
     try:
@@ -381,8 +429,13 @@ def run(chk):
                     continue
                 want_fed = sqlite_resolutions(mfed, sel, False)
                 want_loc = sqlite_resolutions(mloc, sel, True)
-                got_fed, got_loc = model_res(o['fed']), model_res(o['local'])
+                # the rows of the CTE c0 are rows of its underlying table: compare tables through that map
+                under = lambda rs: [[r[0], cte_table(sel)] + r[2:] if len(r) > 2 and r[1] == 'c0' else r for r in rs]
+                got_fed, got_loc = under(model_res(o['fed'])), under(model_res(o['local']))
                 low = lambda rs: [[str(x).lower() for x in r] for r in rs]
+                if {R.dec(n) for n in o['names']} != set(sel_aliases(sel)):
+                    why = dict(sel=sel, field='names handed to the cut', harness=sorted(sel_aliases(sel)), model=sorted(R.dec(n) for n in o['names']))
+                bump('sem/cte=%s' % bool(sel[3]))
                 if low(want_fed) != low(got_fed):
                     why = dict(sel=sel, field='federated resolution', sqlite=want_fed, model=got_fed)
                 elif low(want_loc) != low(got_loc):
@@ -392,23 +445,28 @@ def run(chk):
                     why = why or dict(sel=sel, field='theorem instance T11.1', fed=got_fed, local=got_loc)
                 # the alias-aware cut
                 want_a = sqlite_resolutions(mloc, sel, True, names=sel_aliases(sel))
-                got_a = model_res(o['localA'])
+                got_a = under(model_res(o['localA']))
                 if low(want_a) != low(got_a):
                     why = why or dict(sel=sel, field='local resolution, alias-aware cut', sqlite=want_a, model=got_a)
                 if o['okA'] and got_fed != got_a:
                     why = why or dict(sel=sel, field='theorem instance T11.1 (alias-aware)', fed=got_fed, local=got_a)
+                # instance of the full-strength theorem C11_resolution: what denotes something keeps its denotation
+                if len(got_fed) != len(got_a) or any(f != ['notFound'] and f != a for f, a in zip(got_fed, got_a)):
+                    why = why or dict(sel=sel, field='theorem instance C11_resolution (keeps)', fed=got_fed, local=got_a)
                 bump('semA/ok=%s/%s' % (o['okA'], 'same' if got_fed == got_a else 'changed'))
             if why is not None:
                 r[1] += 1
                 r[2] = r[2] or why
         chk.corr_result('route-plan', res['plan'][0], res['plan'][1], res['plan'][2], dist)
+        chk.oblige('probe:table-names-local', 'correspondence', R.table_names_are_local(),
+                   'prepare_integration_select no longer treats the own name of an unaliased table as a local name (regression of bd15793)')
         okv, which, detail = variants.verdict()
         chk.oblige('corr:route-variant', 'correspondence', okv, detail)
         dist['model-variant'] = which
         chk.corr_result('sem-vs-sqlite', res['sem'][0], res['sem'][1], res['sem'][2])
     for c, sql, feats in stmts[:3]:
         chk.samples.append(dict(sql=sql, catalog=c.kwargs(), features=feats))
-    chk.samples.append(dict(theorem='C11_partial_resolution : okSel db [] s = true → resolveAll false db sch [] (stripSel db s) = resolveAll true db sch [] s'))
+    chk.samples.append(dict(theorem='C11_resolution : ∀ db sch s, keepsAll (resolveAll true db sch [] s) (resolveAll false db sch [] (stripSel db (aliasesOf s) s))   -- keeps a b := a = notFound ∨ b = a'))
     chk.samples.append(dict(theorem='C11_decision : visit q ≠ [] → allResolveTo c i (visit q) → i ∉ projects → i ≠ files/views → classType i ≠ api → planTop c ctes q = some [fetch i (strip i q)]'))
     return chk.finish(assumptions=ASSUME)
 
